@@ -84,3 +84,12 @@ def device_directive(P, rep):
     # the name that is looked up is the directive's operand
     okn = bool(oks) and all(any(e[0] == 'call' and e[1].endswith("HashMap::<K, V, S, A>::get") and "opts*" in str(e[2][1]) for e in p.events) for p in oks)
     rep.ob("C12.device|operand", okn, "the name looked up is the directive's operand" if okn else "the device name looked up is not taken from the directive's operand")
+    # exactly one name: a successful path knows that the operand list has one element (a second name is not dropped silently)
+    lens = []
+    for p in oks:
+        ds = [d for s, d in p.state.doms.items() if isinstance(s, tuple) and s[0] == 's' and s[1].startswith("opts*") and s[1].endswith("#len")]
+        lens.append(ds[0] if len(ds) == 1 else None)
+    ok1 = bool(oks) and all(d is not None and sx.dom_min(d) == 1 and sx.dom_max(d) == 1 for d in lens)
+    rep.ob("C12.device|one-name", ok1, "a successful .device has exactly one operand" if ok1 else
+           "a .device with more than one operand succeeds: the first name is selected and the others are ignored (operand count on success paths: %s)" % (
+               [sx.dom_show(d) if d is not None else "not inspected" for d in lens]))
